@@ -14,9 +14,17 @@
      halt (trap / return / tail call), stuckness and divergence - as the input body;
    - what is dropped is a nop or code that no execution reaches; an `if` without `else` behaves as with an empty `else`.
    - c01_integer_core_instance: the hypotheses are discharged for a CONCRETE machine (Model/SemCore.v: the integer core of
-     WebAssembly on bit patterns, locals / globals reached through slot maps, EXACT label heights), for every parse / emit
-     context: the output tree (the one whose flattening is the emitted stream) on the renumbered slots and the output
-     type table gives exactly the result of the input body.
+     WebAssembly on bit patterns - 98 operators, i32 / i64 arithmetic, comparisons, shifts, rotations, bit counting, sign
+     extension, loads / stores of every width on ONE linear memory, memory.size / memory.grow -, locals / globals / the memory
+     reached through slot maps, EXACT label heights), for every parse / emit context and every body whose load / store
+     immediates survive the round trip ([memarg_ok]: offset < 2^32, alignment exponent < 32): the output tree (the one whose
+     flattening is the emitted stream) on the renumbered slots and the output type table gives exactly the result of the
+     input body - stack, locals, globals, memory contents and size.
+   - c01_equivalence_for_the_operators_of_the_body: the abstract theorem with the per-operator hypotheses asked only for the
+     operators that occur in the body ([ops_of], dead code included) - needed because
+   - c01_truncated_offset_changes_behaviour: walrus keeps [offset mod 2^32] of a memory immediate; for an offset of 2^32 the
+     input traps (out of bounds) where the output loads from address 0: the per-operator hypothesis is FALSE for such an
+     operator, so it cannot be asked for all operators.
    Not in Coq: operator semantics outside that core, the module-level renumbering / reordering of functions (the
    renaming hypothesis covers it per operator); those are observed by executing input and output side by side. *)
 From Coq Require Import List NArith Bool. Import ListNotations.
@@ -186,24 +194,58 @@ Proof. exact ex_unrenamed_differs. Qed.
 (* ---- the abstract statement instantiated with a concrete machine (Model/SemCore.v, Proofs/SemCore.v) *)
 From WV Require Import Model.SemCore Proofs.ModFix10 Proofs.SemCore.
 Theorem c01_integer_core_instance :
-  forall (cx : pctx) (ecx : ectx) (lslot gslot lslot' gslot' : N -> N)
+  forall (cx : pctx) (ecx : ectx) (lslot gslot mslot lslot' gslot' mslot' : N -> N)
            (tys tys' : N -> option (list valty * list valty)),
          (forall i : N, lslot' (rl cx ecx i) = lslot i) ->
          (forall i : N, gslot' (rg cx ecx i) = gslot i) ->
+         (forall i : N, mslot' (rm cx ecx i) = mslot i) ->
          (forall i : N, tys i = bt_tys cx (BT_Func i)) ->
          (forall (i : N) (ps rs : list valty), tys i = Some (ps, rs) -> existing cx ps rs <> None) ->
          (forall (ps rs : list valty) (ty : N),
           find_type cx ps rs = Some ty -> tys' (ex_id2i ecx S_type ty) = Some (ps, rs)) ->
-         forall (fuel : nat) (l : list rt) (s : SemCore.st),
-         run_core lslot' gslot' tys' fuel (map (ren_t cx ecx) (fst (nf_rt_list false l))) s =
-         run_core lslot gslot tys fuel l s.
+         forall l : list rt,
+         (forall o : wop, In o (ops_of l) -> memarg_ok o = true) ->
+         forall (fuel : nat) (s : SemCore.st),
+         run_core lslot' gslot' mslot' tys' fuel (map (ren_t cx ecx) (fst (nf_rt_list false l))) s =
+         run_core lslot gslot mslot tys fuel l s.
 Proof. exact core_roundtrip_equiv_tys. Qed.
 
 Theorem c01_integer_core_never_falls :
-  forall (l g : N -> N) (o : wop) (s : SemCore.st),
+  forall (l g m : N -> N) (o : wop) (s : SemCore.st),
          marks_unreachable o = true ->
-         exists (h : SemCore.halt) (s' : SemCore.st), core_sem l g (WOp o) s = Halt h s'.
+         exists (h : SemCore.halt) (s' : SemCore.st), core_sem l g m (WOp o) s = Halt h s'.
 Proof. exact core_never_falls. Qed.
+
+Theorem c01_equivalence_for_the_operators_of_the_body :
+  forall (S halt : Type) (pop_cond : S -> option (bool * S)) (pop_index : S -> option (N * S))
+           (unwind : N -> S -> S) (leave : S -> S) (cx : pctx) (ecx : ectx)
+           (sem_in sem_out' : wins -> S -> step S halt) (enter_in enter_out' : blockty -> S -> S)
+           (arity_in arity_out' loop_arity_in loop_arity_out' : blockty -> N) (l : list rt),
+         (forall o : wop, In o (ops_of l) -> forall s : S, sem_out' (nf_op cx ecx o) s = sem_in (WOp o) s) ->
+         (forall (bt : blockty) (s : S), enter_out' (nf_bt cx ecx bt) s = enter_in bt s) ->
+         (forall bt : blockty, arity_out' (nf_bt cx ecx bt) = arity_in bt) ->
+         (forall bt : blockty, loop_arity_out' (nf_bt cx ecx bt) = loop_arity_in bt) ->
+         (forall o : wop,
+          In o (ops_of l) ->
+          marks_unreachable o = true -> forall s : S, exists (h : halt) (s' : S), sem_in (WOp o) s = Halt h s') ->
+         forall (fuel : nat) (s : S),
+         eval S halt pop_cond pop_index unwind (fun bt : blockty => enter_out' (nf_bt cx ecx bt)) leave
+           (sem_ren S halt cx ecx sem_out') (fun bt : blockty => arity_out' (nf_bt cx ecx bt))
+           (fun bt : blockty => loop_arity_out' (nf_bt cx ecx bt)) fuel (fst (nf_rt_list false l)) s =
+         eval S halt pop_cond pop_index unwind enter_in leave sem_in arity_in loop_arity_in fuel l s.
+Proof. exact nf_equiv_renamed_on. Qed.
+
+Theorem c01_truncated_offset_changes_behaviour :
+  exists (cx : pctx) (ecx : ectx) (lslot gslot mslot lslot' gslot' mslot' : N -> N) (o : wop) (s : SemCore.st),
+         (forall i : N, lslot' (rl cx ecx i) = lslot i) /\
+         (forall i : N, gslot' (rg cx ecx i) = gslot i) /\
+         (forall i : N, mslot' (rm cx ecx i) = mslot i) /\
+         is_core_shape o = true /\
+         align_ok o = true /\
+         core_sem lslot gslot mslot (WOp o) s = Halt Trap s /\
+         core_sem lslot' gslot' mslot' (nf_op cx ecx o) s =
+         Next {| stk := [VI32 42; VI32 0]; locs := []; globs := []; labs := []; mem := [(0%N, 42%N)]; pages := 1; max_pages := 1 |}.
+Proof. exact core_sem_renamed_big_offset_refuted. Qed.
 
 Theorem c01_encoder_total :
   forall (id2i : space -> N -> N) (p : plain), encode_plain id2i p <> None.
@@ -225,4 +267,6 @@ Print Assumptions c01_interface_has_content.
 Print Assumptions c01_reordering_without_renaming_differs.
 Print Assumptions c01_integer_core_instance.
 Print Assumptions c01_integer_core_never_falls.
+Print Assumptions c01_equivalence_for_the_operators_of_the_body.
+Print Assumptions c01_truncated_offset_changes_behaviour.
 Print Assumptions c01_encoder_total.
